@@ -1,5 +1,5 @@
 (** * C13 — while trading is disabled nothing trades and market orders are rejected *)
-From Bourse Require Import Model.Types Model.Side Model.Book Model.Obs Proofs.NoTrade.
+From Bourse Require Import Model.Types Model.Side Model.Book Model.Obs Model.Rng Model.Env Proofs.NoTrade Proofs.MarketNoTrade.
 
 Theorem c13_no_trade_when_off : forall s o s' x,
   b_trading s = false -> step_raw s o = Ok (s', x) ->
@@ -35,6 +35,22 @@ Theorem c13_toggle_changes_nothing_else : forall L s b,
   observe L (set_trading s b) = observe L s.
 Proof. exact toggle_observation. Qed.
 
+(** Market and environment level: during a whole step - any batch, any processing order - an asset
+    whose flag is off stays off, its trade log is untouched and the step records traded volume 0 for it. *)
+Theorem c13_step_no_trade_when_off : forall L e g e' g',
+  menv_step L e g = Ok (e', g') ->
+  Forall2 (fun b b' => b_trading b = false ->
+             b_trading b' = false /\ b_trades b' = b_trades b /\ b_tvol b' = 0)
+          (en_market e) (en_market e').
+Proof. exact step_no_trade_when_off. Qed.
+
+(** The market-wide switches set the flag of every asset and change nothing else. *)
+Theorem c13_market_switch_only_flags : forall L e g (sw : bool) e' g' x,
+  menv_apply L e g (if sw then EEnable else EDisable) = Ok (e', g', x) ->
+  g' = g /\ en_queue e' = en_queue e /\
+  Forall2 (fun b b' => b' = set_trading b sw) (en_market e) (en_market e').
+Proof. exact market_switch_only_flags. Qed.
+
 Check c13_no_trade_when_off : forall s o s' x,
   b_trading s = false -> step_raw s o = Ok (s', x) ->
   b_trades s' = b_trades s /\ b_tvol s' = (match o with OResetTvol => 0 | _ => b_tvol s end).
@@ -53,3 +69,5 @@ Print Assumptions c13_no_trade_when_off.
 Print Assumptions c13_market_rejected.
 Print Assumptions c13_limit_rests.
 Print Assumptions c13_toggle_changes_nothing_else.
+Print Assumptions c13_step_no_trade_when_off.
+Print Assumptions c13_market_switch_only_flags.
